@@ -346,7 +346,8 @@ pub(super) fn merge_three_way_git(
             merged: out.stdout,
             conflicted: false,
         }),
-        Some(1) => Ok(MergeOutcome {
+        // git merge-file exits with the number of conflicts (truncated to 127); errors are > 127.
+        Some(1..=127) => Ok(MergeOutcome {
             merged: out.stdout,
             conflicted: true,
         }),
